@@ -18,34 +18,43 @@ Require Import Ctpg.Proofs.DriverBasics.
 Require Import Ctpg.Proofs.DriverEval.
 Require Import Ctpg.Proofs.LRSound.
 Require Import Ctpg.Proofs.LRComplete.
+Require Import Ctpg.Model.Buffers.
+Require Import Ctpg.Proofs.BuffersCorrect.
+Require Import Ctpg.Model.Containers.
 From Coq Require Import Permutation.
 
 (* for every algebra of functors: when no stack pop by recovery happened, the value stack is the bottom-up, left-to-right evaluation of the tree stack, the final context is the one threaded through that evaluation, and the functor calls are the post-order of the trees *)
 Theorem C02_value_is_bottom_up_evaluation :
   forall (V C : Type) (g : grammar) (tbl : LRGen.table) (opts : options) (buf : list nat) (cap : option nat) (lexer : bool -> spoint -> list nat -> list lex_event * option (nat * nat)) (term_f : nat -> nat -> nat -> spoint -> V) (err_f : spoint -> V) (rule_f : nat -> C -> list V -> C * V) (c0 : C) (fuel : nat), o_verbose opts = true -> let '(rT, sT, outT) := run ptree (list (nat * list ptree)) g tbl opts buf cap lexer tree_term_f tree_err_f tree_rule_f fuel [] in let '(rA, sA, _) := run V C g tbl opts buf cap lexer term_f err_f rule_f fuel c0 in (forall e : event, In e outT -> is_pop_ev e = false) -> eval_list V C term_f err_f rule_f (rev (ps_values sT)) c0 = (ps_ctx sA, rev (ps_values sA)) /\ ps_ctx sT = flat_map post_calls (rev (ps_values sT)) /\ (forall t : ptree, rT = Accept t -> exists v : V, rA = Accept v /\ snd (eval V C term_f err_f rule_f t c0) = v /\ (ps_values sT = [t] -> eval V C term_f err_f rule_f t c0 = (ps_ctx sA, v) /\ ps_ctx sT = post_calls t)).
-Proof. exact run_tree_eval. Qed.
+Proof. exact @run_tree_eval. Qed.
 Print Assumptions C02_value_is_bottom_up_evaluation.
 
 (* each rule functor is called exactly once per tree node, after all of its children, with the children's values in right-side order *)
 Theorem C02_calls_postorder :
   forall (g : grammar) (tbl : LRGen.table) (opts : options) (buf : list nat) (cap : option nat) (lexer : bool -> spoint -> list nat -> list lex_event * option (nat * nat)) (fuel : nat), o_verbose opts = true -> let '(rT, sT, outT) := run ptree (list (nat * list ptree)) g tbl opts buf cap lexer tree_term_f tree_err_f tree_rule_f fuel [] in (forall e : event, In e outT -> is_pop_ev e = false) -> ps_ctx sT = flat_map post_calls (rev (ps_values sT)) /\ (forall t : ptree, rT = Accept t -> ps_values sT = [t] -> ps_ctx sT = post_calls t).
-Proof. exact calls_postorder_verbose. Qed.
+Proof. exact @calls_postorder_verbose. Qed.
 Print Assumptions C02_calls_postorder.
 
 (* the driver's control path, output and stack shape do not depend on the functors *)
 Theorem C02_same_path_for_every_algebra :
   forall (V C : Type) (g : grammar) (tbl : LRGen.table) (opts : options) (buf : list nat) (cap : option nat) (lexer : bool -> spoint -> list nat -> list lex_event * option (nat * nat)) (term_f : nat -> nat -> nat -> spoint -> V) (err_f : spoint -> V) (rule_f : nat -> C -> list V -> C * V) (c0 : C) (fuel : nat), let '(rT, sT, outT) := run ptree (list (nat * list ptree)) g tbl opts buf cap lexer tree_term_f tree_err_f tree_rule_f fuel [] in let '(rA, sA, outA) := run V C g tbl opts buf cap lexer term_f err_f rule_f fuel c0 in res_shape rT = res_shape rA /\ st_shape sT = st_shape sA /\ outT = outA.
-Proof. exact run_same_path. Qed.
+Proof. exact @run_same_path. Qed.
 Print Assumptions C02_same_path_for_every_algebra.
 
 (* for functors that ignore the context the values are evaluations of the trees even across recovery *)
 Theorem C02_context_free_functors :
   forall (V C : Type) (g : grammar) (tbl : LRGen.table) (opts : options) (buf : list nat) (cap : option nat) (lexer : bool -> spoint -> list nat -> list lex_event * option (nat * nat)) (term_f : nat -> nat -> nat -> spoint -> V) (err_f : spoint -> V) (rule_f : nat -> C -> list V -> C * V) (f : nat -> list V -> V), (forall (r : nat) (c : C) (args : list V), rule_f r c args = (c, f r args)) -> forall (c0 : C) (fuel : nat), let '(rT, sT, outT) := run ptree (list (nat * list ptree)) g tbl opts buf cap lexer tree_term_f tree_err_f tree_rule_f fuel [] in let '(rA, sA, outA) := run V C g tbl opts buf cap lexer term_f err_f rule_f fuel c0 in rA = map_res (value_of V C term_f err_f rule_f c0) rT /\ ps_values sA = map (value_of V C term_f err_f rule_f c0) (ps_values sT) /\ ps_ctx sA = c0 /\ st_shape sA = st_shape sT /\ outA = outT.
-Proof. exact run_tree_eval_ctx_free. Qed.
+Proof. exact @run_tree_eval_ctx_free. Qed.
 Print Assumptions C02_context_free_functors.
 
 (* the derivation tree of an input of a validated table is unique *)
 Theorem C02_unique_tree :
   forall (g : grammar) (sts : list items) (tbl : LRGen.table) (w : list nat) (t1 t2 : tree), validate g sts tbl = true -> no_error_symbol g tbl = true -> tokens_ok g w -> derives_tree g t1 w -> derives_tree g t2 w -> t1 = t2.
-Proof. exact lr_unique. Qed.
+Proof. exact @lr_unique. Qed.
 Print Assumptions C02_unique_tree.
+
+(* 'a term's value being its functor applied to its lexeme': the lexeme of string_buffer (and by C07_buffer_kinds_present_the_same_lexemes of every kind) is the slice of the buffer's own text *)
+Theorem C02_a_terms_lexeme_is_the_slice_of_the_text :
+  forall (text : list nat) (s e : nat), s <= e -> e <= length text -> sb_get_view {| sb_str := text |} s e = Ok (slice text s e).
+Proof. exact @sb_view_spec. Qed.
+Print Assumptions C02_a_terms_lexeme_is_the_slice_of_the_text.
